@@ -88,12 +88,29 @@ def build_go():
                     pass
         os.makedirs(d, exist_ok=True)
         ov = write_overlay()
-        for out, tags, pkg in ((ergo, [], "./cmd/ergo"), (ergov, ["-tags", "verif", "-overlay", ov], "./cmd/ergo"),
-                               (ev, ["-tags", "verif", "-overlay", ov], "./cmd/ergoverif")):
-            r = run(["go", "build", *cover, *tags, "-o", out, pkg], cwd=REPO, env=GOENV)
-            if r.returncode != 0:
-                shutil.rmtree(d, ignore_errors=True)
-                raise BuildError("go build failed for %s:\n%s" % (pkg, r.stderr[-4000:]))
+        src, ovargs, scratch = REPO, ["-overlay", ov], None
+        if cover:
+            # `go build -cover` instruments files by their real path and does not see overlay files: build from a scratch copy of the
+            # working tree with the harness files physically in place
+            import tempfile
+            scratch = tempfile.mkdtemp(prefix="ergo-verif-coversrc-")
+            src = os.path.join(scratch, "repo")
+            shutil.copytree(REPO, src, ignore=shutil.ignore_patterns(".git"), symlinks=True)
+            for dst, frm in json.load(open(ov))["Replace"].items():
+                rel = os.path.relpath(dst, REPO)
+                os.makedirs(os.path.dirname(os.path.join(src, rel)), exist_ok=True)
+                shutil.copy(frm, os.path.join(src, rel))
+            ovargs = []
+        try:
+            for out, tags, pkg in ((ergo, [], "./cmd/ergo"), (ergov, ["-tags", "verif", *ovargs], "./cmd/ergo"),
+                                   (ev, ["-tags", "verif", *ovargs], "./cmd/ergoverif")):
+                r = run(["go", "build", *cover, *tags, "-o", out, pkg], cwd=src, env=GOENV)
+                if r.returncode != 0:
+                    shutil.rmtree(d, ignore_errors=True)
+                    raise BuildError("go build failed for %s:\n%s" % (pkg, r.stderr[-4000:]))
+        finally:
+            if scratch:
+                shutil.rmtree(scratch, ignore_errors=True)
         return ergo, ergov, ev
 
 
